@@ -10,6 +10,10 @@ CLAIMED = {
          "Decides clauses R17.1-R17.5: every reflectively dispatchable entry of every registered contract is enumerated from go/types; every entry that can reach a ledger write / event / balance change / EVM call / effectful cross-invoke must have all such effects behind a caller guard on every CFG path (or be listed public-by-design with a reason); promoted plumbing must be excluded by a dispatcher filter that dominates reflect Call; permission helpers are verified as predicates on the checked identity; audit-only branches contain only event posts. This is a structural necessary condition (breaking it exposes an entry), not the runtime behaviour.",
          "go/types+go/ssa model; reflection modelled by the BVM dispatch model whose premises (MethodByName+Call in InvokeBVM, nested context in CrossInvoke) are re-checked each run; guard idiom table in rules/contracts.go; role data and sender signatures trusted",
          "DESIGN.md section 5 C17, section 3.1"),
+ "C15": ("enum-field refinement dataflow (finality guards) + SSA guard/ordering reachability in the governance contract",
+         "Decides clauses R15.1-R15.5: every proposal status change executes only where p.Status cannot be APPROVED/REJECTED (forward dataflow refined by the code's own comparisons, lifted through helper pre/post-conditions to all call sites); vote admission (role answer before setVote; tally and ballot writes behind electorate membership and ballot-absent edges; persistence only on approve/reject); special proposals reach the decision only after the super-admin vote; handleResult is preceded by a concluding call and follows every direct concluding change; the decision function is fed the proposal's own tally fields. Structural necessary conditions; not the tally arithmetic.",
+         "go/ssa model; govaluate semantics and role data trusted; helper postconditions computed from the helpers' own bodies",
+         "DESIGN.md section 5 C15"),
 }
 NOT_APPLICABLE = {}
 
